@@ -5,7 +5,7 @@
    The post-measurement state is characterised at the group level (new group = {b, b.(+-O) : b old, commuting with O}, both inclusions; rank drops exactly when no active
    stabilizer anticommutes) AND as a matrix identity: rho' = P rho P / Tr(P rho P) entry by entry in the ket semantics, Tr(P rho P) = 1/2 (Proofs/ProjectorFacts.v).
    Dense comparison (N<=4) remains in the correspondence check. *)
-From PC Require Import Gen.Kernels Model.Base Model.Pauli Model.CMap Model.Tableau Model.Spec Proofs.TableauInv Proofs.MeasureFacts Proofs.ProjectionFacts Model.Poly Model.PolySem Model.Sample Proofs.TraceFacts Proofs.ProjectorFacts.
+From PC Require Import Gen.Kernels Model.Base Model.Pauli Model.CMap Model.Tableau Model.Spec Proofs.TableauInv Proofs.MeasureFacts Proofs.ProjectionFacts Model.Poly Model.PolySem Model.Sample Proofs.TraceFacts Proofs.ProjectorFacts Proofs.MeasureCircuitFacts Proofs.OverlapFacts Proofs.JointBornFacts.
 Open Scope Z_scope.
 
 (* determined: +-O already a stabilizer: nothing changes, log2-probability 0, the outcome is the eigenvalue fixed by the state *)
@@ -93,6 +93,32 @@ Theorem C06_eigenstate_projection : forall n t o k k', tableau_ok n t -> length 
   (in_group n t (pneg o) -> amp (sandwich n o (density_poly t)) k k' = c0).
 Proof. intros n t o k k' Ht Hl Hh Hk. split; intro Hg; [exact (sandwich_eigen_plus n t o k k' Ht Hl Hh Hg Hk) | exact (sandwich_eigen_minus n t o k k' Ht Hl Hh Hg Hk)]. Qed.
 Print Assumptions C06_eigenstate_projection.
+(* LISTS OF COMMUTING OBSERVABLES (states of every rank, every coin schedule): outcomes are bits and lp <= 0; the JOINT Born rule: 2^lp = Tr(rho P_1...P_k) with P_j the
+   projector of the j-th recorded outcome; the post-state is Pi rho Pi / Tr(rho Pi), Pi = P_1...P_k, entry by entry; repeating the list returns the same outcomes with
+   probability one and the same state *)
+Theorem C06_joint_born_rule : forall n t obs coins, tableau_ok n t -> Forall (fun o => length (fst o) = n /\ hermP o) obs ->
+  (forall a b, In a obs -> In b obs -> acq (fst a) (fst b) = 0) -> bit_coins coins -> (length obs <= length coins)%nat ->
+  let '(t', outs, lp, rest) := measure t obs coins in
+  trace_sem n (pmulp (density_poly t) (proj_prod n (signed_list obs outs))) = half_pow (Z.to_nat (- lp)).
+Proof. exact measure_joint_born. Qed.
+Print Assumptions C06_joint_born_rule.
+Theorem C06_post_state_of_a_list : forall n t obs coins, tableau_ok n t -> Forall (fun o => length (fst o) = n /\ hermP o) obs ->
+  (forall a b, In a obs -> In b obs -> acq (fst a) (fst b) = 0) -> bit_coins coins -> (length obs <= length coins)%nat ->
+  let '(t', outs, lp, rest) := measure t obs coins in
+  forall k k', length k = n -> cmul (half_pow (Z.to_nat (- lp))) (amp (density_poly t') k k')
+     = amp (pmulp (proj_prod n (signed_list obs outs)) (pmulp (density_poly t) (proj_prod n (signed_list obs outs)))) k k'.
+Proof. exact measure_post_state. Qed.
+Print Assumptions C06_post_state_of_a_list.
+Theorem C06_repeating_a_list : forall n t obs coins, tableau_ok n t -> Forall (fun o => length (fst o) = n /\ hermP o) obs ->
+  (forall a b, In a obs -> In b obs -> acq (fst a) (fst b) = 0) -> bit_coins coins -> (length obs <= length coins)%nat ->
+  let '(t', outs, lp, rest) := measure t obs coins in forall coins2, bit_coins coins2 -> measure t' obs coins2 = (t', outs, 0, coins2).
+Proof. exact measure_repeat. Qed.
+Print Assumptions C06_repeating_a_list.
+Theorem C06_list_outcomes_are_bits : forall n t obs coins, tableau_ok n t -> Forall (fun o => length (fst o) = n /\ hermP o) obs ->
+  (forall a b, In a obs -> In b obs -> acq (fst a) (fst b) = 0) -> bit_coins coins -> (length obs <= length coins)%nat ->
+  let '(t', outs, lp, rest) := measure t obs coins in length outs = length obs /\ Forall (fun b => b = 0 \/ b = 1) outs /\ lp <= 0.
+Proof. exact measure_outcomes_are_bits. Qed.
+Print Assumptions C06_list_outcomes_are_bits.
 (* non-vacuity: the witness of the repaired pivot defect -- mixed state (r=1) with stabilizer Z1 and logical pair Z0/X0, observable X0X1 is undetermined and
    the rank must NOT drop because the active stabilizer Z1 anticommutes *)
 Example C06_example :
